@@ -103,12 +103,20 @@ class EpollSelect(object):
     retwl = []
     retxl = []
     for (fd, event) in events:
+      obj = self.fd_to_obj[fd]
       if event & (select.EPOLLIN|select.EPOLLPRI|select.EPOLLRDNORM|select.EPOLLRDBAND):
-        retrl.append(self.fd_to_obj[fd])
+        retrl.append(obj)
       if event & (select.EPOLLOUT|select.EPOLLWRNORM|select.EPOLLWRBAND):
-        retwl.append(self.fd_to_obj[fd])
+        retwl.append(obj)
       if event & (select.EPOLLERR|select.EPOLLHUP):
-        retxl.append(self.fd_to_obj[fd])
+        if obj in xl:
+          retxl.append(obj)
+        else:
+          # epoll reports these whether or not anyone asked.  The caller
+          # didn't, so do what select() does: the fd is ready for whatever
+          # it is being watched for (and the caller finds out from there).
+          if fd in self.lastrl_set and obj not in retrl: retrl.append(obj)
+          if fd in self.lastwl_set and obj not in retwl: retwl.append(obj)
 
     return (retrl, retwl, retxl)
 
